@@ -23,6 +23,7 @@ def run(r):
     check_roles_consistent(r, "C11-BLK")
     check_limit(r, "C11-LIM")
     check_extract(r, "C11-LIM")
+    check_truncation_sites(r, "C11-CUT")
     check_kd(r, "C11-KD")
     check_encoder(r, "C11-CMP")
     run_fga(r, "C11", {"none", "hamming", "callable"}, labels={"kdtree-worker"}, floor=6)
@@ -34,10 +35,109 @@ def run(r):
     rep.floor("C11-LIM", 8)
 
 
+def check_truncation_sites(r, rule):
+    """max_returns outside the two workers.  The parameter is followed from kdtree through the arguments of every resolved call (formal by
+    formal); wherever a function that receives it cuts a sequence with it - x[:m], x[0:m], islice(x, m) - the sequence must be one sorted
+    ascending by the reported distance (sorted(.., key=lambda x: x[2]) / .sort(key=...) / heapq.nsmallest), otherwise a closer neighbour can
+    be cut in favour of a farther one: which neighbours survive then depends on the order candidates were met in, i.e. on bucket sizes,
+    chunking and the path n_cpu selected.  (The workers read the value from the parameter block and are covered by C11-LIM proper.)"""
+    from .. import AnalysisBroken
+    from ..rules import where_of
+    from ..terms import head, is_const, show, strip, strip_all, walk
+    P, A = r.P, r.A
+    entry = "pyrepseq.nn.kdtree"
+    if entry not in P.functions:
+        raise AnalysisBroken(f"anchor function {entry} not found in the current tree")
+    tainted = {entry: {"max_returns"}}
+    todo = [entry]
+    summaries = {}
+
+    def summ(q):
+        if q not in summaries:
+            try:
+                summaries[q] = A.summary(q)
+            except AnalysisBroken:
+                summaries[q] = None
+        return summaries[q]
+
+    def terms_of(s):
+        return [(e, v) for e in s.events for v in e.data.values() if isinstance(v, tuple)] + [(None, s.ret)]
+
+    def mentions(t, names):
+        return any(head(x) == "param" and x[1] in names for x in walk(("t", t)))
+
+    while todo:
+        q = todo.pop()
+        s = summ(q)
+        if s is None:
+            continue
+        for e, v in terms_of(s):
+            for x in walk(("t", v)):
+                if head(x) != "call":
+                    continue
+                f = strip(x[1])
+                if head(f) != "glob" or f[1] not in P.functions or not f[1].startswith("pyrepseq."):
+                    continue
+                cs = summ(f[1])
+                if cs is None:
+                    continue
+                m = A.bind_call(cs, x)
+                if m is None:
+                    continue
+                for (_, pname), arg in m.items():
+                    if isinstance(arg, tuple) and mentions(arg, tainted[q]) and pname not in tainted.setdefault(f[1], set()):
+                        tainted[f[1]].add(pname)
+                        todo.append(f[1])
+    n = 0
+
+    def by_distance(x):
+        """is x a sequence sorted ascending by element [2]?"""
+        x = strip(x)
+        key = rev = None
+        if head(x) == "call" and strip(x[1]) in (("glob", "builtins.sorted"),):
+            kw = dict(x[3]); key, rev = kw.get("key"), kw.get("reverse")
+        elif head(x) == "call" and strip(x[1]) == ("glob", "heapq.nsmallest"):
+            return True
+        elif head(x) == "mut" and x[1] == "sort":
+            kw = dict(x[4]); key, rev = kw.get("key"), kw.get("reverse")
+        else:
+            return False
+        if rev is not None and not is_const(rev, False):
+            return False
+        k = strip_all(key) if key is not None else None
+        return k is not None and (head(k) == "lam" and len(k[2]) == 1 and strip(k[3]) == ("sub", ("lparam", k[1], k[2][0][0]), ("const", "int", 2))
+                                  or (head(k) == "call" and strip(k[1]) == ("glob", "operator.itemgetter") and len(k[2]) == 1 and is_const(k[2][0], 2)))
+
+    for q, names in sorted(tainted.items()):
+        s = summ(q)
+        if s is None:
+            continue
+        r.rep.analysed(q)
+        seen = set()
+        for e, v in terms_of(s):
+            for x in walk(("t", v)):
+                seq = None
+                if head(x) == "sub" and head(strip(x[2])) == "slice" and mentions(strip(x[2]), names):
+                    seq = x[1]
+                elif head(x) == "call" and strip(x[1]) == ("glob", "itertools.islice") and len(x[2]) >= 2 and any(mentions(a, names) for a in x[2][1:]):
+                    seq = x[2][0]
+                if seq is None or strip_all(x) in seen:
+                    continue
+                seen.add(strip_all(x))
+                n += 1
+                node = e.node if e is not None else s.func.node
+                r.rep.ob(rule, q, by_distance(seq), "a list cut to max_returns entries is sorted ascending by the reported distance first (no closer true neighbour is cut in favour of a farther one)",
+                         where_of(P, s.func, node), expected="sorted(.., key=lambda x: x[2])[:max_returns]", found=show(x, 90), key=f"cut {q.rsplit('.', 1)[1]} {show(strip_all(seq), 50)}")
+    r.rep.counts[rule + "/functions-receiving-max_returns"] = len(tainted)
+    if len(tainted) < 2:
+        raise AnalysisBroken(f"{rule}: max_returns is handed on to {len(tainted) - 1} function(s) from kdtree, floor is 1 (anchor vanished)")
+
+
 from ..selftest import V  # noqa: E402
 
 N = "pyrepseq/nn.py"
 VARIANTS = [
+    V("cut-per-bucket-unsorted", N, "            ans += [(indices[i], indices[j], dist) for i, j, dist in bucket_triplets]", "            ans += [(indices[i], indices[j], dist) for i, j, dist in bucket_triplets][:max_returns]", rule="C11-CUT"),
     V("D4-chunksize-zero", N, "chunksize=max(1, int(len(seqs) / n_cpu))", "chunksize=int(len(seqs) / n_cpu)", rule="C11-IV"),
     V("block-stored-after-pool", N, "    _cal_params = (seqs, max_edits, limit, custom_distance, max_cust_dist)\n    _loop = enumerate(y_indices)\n\n    if n_cpu == 1:\n        result = map(cal, _loop)\n    else:\n        with Pool(n_cpu) as p:\n",
       "    _loop = enumerate(y_indices)\n\n    if n_cpu == 1:\n        _cal_params = (seqs, max_edits, limit, custom_distance, max_cust_dist)\n        result = map(cal, _loop)\n    else:\n        with Pool(n_cpu) as p:\n            _cal_params = (seqs, max_edits, limit, custom_distance, max_cust_dist)\n", rule="C11-ORD"),
